@@ -66,6 +66,8 @@ class Canon:
         for _ in range(4):
             before = self.changed
             self.changed = False
+            self._pass_split_tuple_assign()
+            self._pass_counter_of_generator()
             self._pass_update_calls()
             self._pass_named_conditions()
             self._walk_blocks(self.f.node)
@@ -96,6 +98,71 @@ class Canon:
 
     def _own(self):
         return list(own_nodes(self.f.node))
+
+    # -------------------------------------------------------------------- T
+    def _pass_split_tuple_assign(self) -> None:
+        """`a, b = x, y` -> `a = x; b = y` when no target name occurs on the right-hand side (not a swap)"""
+        for parent, fld, lst in list(self._blocks(self.f.node)):
+            i = 0
+            while i < len(lst):
+                s = lst[i]
+                if (
+                    isinstance(s, ast.Assign)
+                    and len(s.targets) == 1
+                    and isinstance(s.targets[0], (ast.Tuple, ast.List))
+                    and isinstance(s.value, (ast.Tuple, ast.List))
+                    and len(s.targets[0].elts) == len(s.value.elts)
+                    and all(isinstance(t, ast.Name) for t in s.targets[0].elts)
+                    and not any(isinstance(v, ast.Starred) for v in s.value.elts)
+                ):
+                    tnames = {t.id for t in s.targets[0].elts}
+                    rnames = {n.id for v in s.value.elts for n in ast.walk(v) if isinstance(n, ast.Name)}
+                    if not (tnames & rnames) and len(tnames) == len(s.targets[0].elts):
+                        new = [ast.copy_location(ast.Assign(targets=[ast.Name(id=t.id, ctx=ast.Store())], value=v), s) for t, v in zip(s.targets[0].elts, s.value.elts)]
+                        lst[i : i + 1] = new
+                        self.changed = True
+                        i += len(new)
+                        continue
+                i += 1
+
+    # -------------------------------------------------------------------- K
+    def _pass_counter_of_generator(self) -> None:
+        """`c = Counter(<elt> for x in it [if cond])` -> `c = Counter()` + the counting loop `c[<elt>] += 1`
+        (the loop is the form the counting rules are written against)"""
+        for parent, fld, lst in list(self._blocks(self.f.node)):
+            i = 0
+            while i < len(lst):
+                s = lst[i]
+                v = s.value if isinstance(s, ast.Assign) and len(s.targets) == 1 and isinstance(s.targets[0], ast.Name) else None
+                if (
+                    isinstance(v, ast.Call)
+                    and unparse(v.func).split(".")[-1] == "Counter"
+                    and len(v.args) == 1
+                    and not v.keywords
+                    and isinstance(v.args[0], (ast.GeneratorExp, ast.ListComp))
+                    and len(v.args[0].generators) == 1
+                    and not v.args[0].generators[0].is_async
+                ):
+                    gen = v.args[0].generators[0]
+                    name = s.targets[0].id
+                    init = ast.copy_location(ast.Assign(targets=[ast.Name(id=name, ctx=ast.Store())], value=ast.Call(func=v.func, args=[], keywords=[])), s)
+                    inc = ast.AugAssign(target=ast.Subscript(value=ast.Name(id=name, ctx=ast.Load()), slice=v.args[0].elt, ctx=ast.Store()), op=ast.Add(), value=ast.Constant(value=1))
+                    body = [inc]
+                    for c in reversed(gen.ifs):
+                        body = [ast.If(test=c, body=body, orelse=[])]
+                    loop = ast.For(target=gen.target, iter=gen.iter, body=body, orelse=[])
+                    for t in ast.walk(loop.target):
+                        if isinstance(t, (ast.Name, ast.Tuple, ast.List)):
+                            t.ctx = ast.Store()
+                    ast.copy_location(loop, s)
+                    for x in ast.walk(loop):
+                        if not hasattr(x, "lineno") and isinstance(x, (ast.stmt, ast.expr)):
+                            ast.copy_location(x, s)
+                    lst[i : i + 1] = [init, loop]
+                    self.changed = True
+                    i += 2
+                    continue
+                i += 1
 
     # -------------------------------------------------------------------- H
     def _pass_update_calls(self) -> None:
